@@ -13,4 +13,43 @@ TABLE = {
              "length bound checked on ~0.8M (quick) / ~3.7M (thorough) inputs including all strings of length 0-2; held on those inputs, nothing more.",
         note="Trusts enc.FromCode to enumerate the selectable codecs; the oracle is byte equality, so no model of any codec is trusted.",
         technique="runtime monitoring: reference-oracle (round-trip/alphabet/length) monitor over seeded and small-scope-exhaustive inputs"),
+    "C06": dict(
+        ready=True, level="exploration",
+        text="Real NewServerConnection/NewClientConnection driven over a scripted segmenting conn with grammar-generated, mutated and garbage "
+             "handshake bytes under 4 (quick) / 8 (thorough) segmentations each; oracles: no panic, segmentation invariance of (session, status "
+             "sequence, next-layer bytes), an executable reference grammar for generator-produced inputs, the one-way implication session => "
+             "well-formed announce+upgrade for arbitrary inputs, and read-ahead preservation; StartTLS against a real crypto/tls peer and a websocket subset.",
+        note="The reference grammar (~60 lines) is trusted as the reading of the statement; deviations the statement leaves open are excluded from "
+             "exact prediction (still checked for panics/invariance). In-memory conns, so kernel-level coalescing is modelled by the split set.",
+        technique="runtime monitoring: metamorphic (segmentation-invariance) and reference-model oracles over generated handshake inputs"),
+    "C07": dict(
+        ready=True, level="fault_enumeration",
+        text="Real DNS client connection against the real server listener through an adversarial in-memory communicator that enumerates per-exchange "
+             "fates (lost query, lost answer, duplicate, replay of queries up to 65700 exchanges old) from scripted families; keyed streams both ways, "
+             ">70000 packets per direction across the 16-bit wrap from 7 starting sequence numbers; ~1.9M (quick) / ~20M (thorough) exchanges observed, "
+             "repeated under the race detector.",
+        note="Loss is modelled at the communicator interface with virtual timeouts (the wrapped net.Error the UDP communicator returns); "
+             "verdicts count exchanges, never seconds. Delivery 'eventually' is restated as: within 4*outstanding+64 exchanges after faults stop.",
+        technique="runtime monitoring: online prefix/exactly-once oracle on keyed streams under scripted fault injection at the DNS exchange boundary"),
+    "C09": dict(
+        ready=True, level="exploration",
+        text="Every request type x field values (all 1296 user ids, boundary seq/ack, all option-flag combinations, every codec code) x 6 upstream "
+             "codecs x every payload length 0..MTU x domains of length 4..120: encoded by the real serializer, question name checked independently "
+             "(labels<=63, name<=253), packed/unpacked by miekg/dns, decoded exactly as the server's onMessage does, fields compared.",
+        note="miekg/dns Pack/Unpack is taken as 'real DNS wire encoding'; the random cache-busting characters inside socketace are not controlled.",
+        technique="runtime monitoring: round-trip reference oracle over the real encode -> wire -> decode path on enumerated/seeded inputs"),
+    "C10": dict(
+        ready=True, level="exploration",
+        text="Every response type x error code x 8 record types x 8 downstream codecs x payload lengths (every length 0..300 and the record/string "
+             "limits up to 65540) x contents x domains through the real encode -> Pack -> Unpack -> decode path; a reported failure at any stage "
+             "is accepted, a silently different decoded response or a panic is a violation. Known genuine defects are listed in known_findings.txt.",
+        note="Responses are restricted to what the server can form. Signatures are record type x codec x response family x failing layer.",
+        technique="runtime monitoring: three-outcome round-trip oracle (identical / reported failure / silent difference) over enumerated inputs"),
+    "C19": dict(
+        ready=True, level="exploration",
+        text="Model-based monitor over sequential call histories on compositions of the 12 real wrapper constructors over counting fake resources "
+             "(Close succeeds or fails): exhaustive for depth<=2 and short histories, seeded random to depth 4 / 12 calls; asserts exactly-once close "
+             "of the resource, nil on repeated Close, Closed() false before / true after.",
+        note="Only the clauses the statement fixes are asserted; states where another wrapper of the chain was closed are not judged.",
+        technique="runtime monitoring: reference-model oracle over enumerated and random call histories on instrumented fake resources"),
 }
